@@ -395,20 +395,31 @@ def judge_all(rep, pid, cases, nontrivial):
 
 
 def replay_case(path, pid):
+    """Re-run one stored case against the real code: 0 if it now conforms (with Dev = {} or with a
+    listed deviation set, i.e. the verdict of a run would be pass / KNOWN-FINDING), 1 otherwise."""
     with open(path) as f:
         rec = json.load(f)
     sc = rec["case"]["scenario"]
     run, obs = observe(sc)
     tr = dict(sc=U.spec_scenario(sc), mode=pid, events=U.tlc_events(sc, run))
-    got, _ = validate([tr], frozenset())
     print("scenario", json.dumps(short(sc)))
     for e in tr["events"]:
         print("  ", json.dumps(e))
-    print("trace reached", got[0][0], "of", got[0][1])
-    sums, _ = summaries([sc], frozenset())
-    exps = [common.canon(project(expected_obs(e), pid)) for e in sums[sc["id"]]]
-    o = project(obs, pid)
-    print("observed", common.canon(o))
-    for e in exps[:4]:
-        print("expected", e)
-    return 0 if got[0][0] == got[0][1] and common.canon(o) in exps else 1
+    o = common.canon(project(obs, pid))
+    print("observed", o)
+    findings = {f["deviation"]: f["id"] for f in common.open_findings(pid)}
+    for level in [[frozenset()]] + list(dev_levels(findings)):
+        for D in level:
+            got, _ = validate([tr], D)
+            sums, _ = summaries([sc], D)
+            exps = [common.canon(project(expected_obs(e), pid)) for e in sums[sc["id"]]]
+            ok = got[0][0] == got[0][1] and o in exps
+            print(f"Dev={sorted(D)}: event log matched {got[0][0]} of {got[0][1]} events; summary "
+                  f"{'is' if o in exps else 'is not'} one of the {len(exps)} the module allows")
+            if not D and o not in exps:
+                print("expected", exps[0])
+            if ok:
+                print("conforms" if not D else "explained by listed findings " + ", ".join(findings[d] for d in sorted(D)))
+                return 0
+    print("no listed deviation set explains it")
+    return 1
